@@ -10,12 +10,22 @@ def it(*ids):
     return [L(i) for i in ids]
 
 
+def _alts(ids):
+    """ids: str of single-letter item ids, or a list mixing item ids and ready sub-ASTs (compound alternatives)."""
+    return [L(i) if isinstance(i, str) else i for i in ids]
+
+
 def ccAny(ids, default=None, rid=None):
-    return C('Any', rid, it(*ids), ('default', (default,) if default else ()))
+    return C('Any', rid, _alts(ids), ('default', (default,) if default else ()))
 
 
 def ccXor(ids, default=None, rid=None):
-    return C('Xor', rid, it(*ids), ('default', (default,) if default else ()))
+    return C('Xor', rid, _alts(ids), ('default', (default,) if default else ()))
+
+
+# compound alternatives with explicit ids, so that several rules can refer to the SAME package (one shared object)
+P_PACK = C('All', "P", [L("x"), L("y")])
+Q_PACK = C('All', "Q", [L("b"), L("c")])
 
 
 def rule_menu():
@@ -35,6 +45,11 @@ def rule_menu():
         ("a->ccAny(x,y,z|y)", C('Imply', None, [L("a"), ccAny("xyz", "y")])),
         ("x->ccXor(a,b,c|c)", C('Imply', None, [L("x"), ccXor("abc", "c")])),
         ("x->Any(a,b)", C('Imply', None, [L("x"), C('Any', None, it("a", "b"))])),
+        ("ccAny(a,P|a)", ccAny(["a", P_PACK], "a")),
+        ("ccXor(a,P|a)", ccXor(["a", P_PACK], "a")),
+        ("ccAny(a,P,Q|a)", ccAny(["a", P_PACK, Q_PACK], "a")),
+        ("z->P", C('Imply', None, [L("z"), P_PACK])),
+        ("Any(P,Q)", C('Any', None, [P_PACK, Q_PACK])),
     ]
     return m
 
